@@ -2,7 +2,7 @@ INIT Init
 NEXT Next
 CONSTANT U <- TraceUniverse
 CONSTANTS
-  Ops = {"get", "iterate", "keys", "assign", "delete"}
+  Ops = {"get", "iterate", "keys", "assign", "delete", "cauto", "cplain"}
   Mutant = ""
 CONSTRAINT Check
 CHECK_DEADLOCK FALSE
